@@ -12,6 +12,8 @@ import (
 
 	"github.com/BlackVectorOps/semantic_firewall/v3/internal/verifshim/progfam"
 	"github.com/BlackVectorOps/semantic_firewall/v3/internal/verifshim/vh"
+	"github.com/BlackVectorOps/semantic_firewall/v3/pkg/analysis/ir"
+	"github.com/BlackVectorOps/semantic_firewall/v3/pkg/diff"
 )
 
 func pfEditRun(t *testing.T, r *vh.Report, wantDiff bool) ([][]*pfCase, bool) {
@@ -49,9 +51,75 @@ func pfAbstractedLiteralEdit(op string) bool {
 	return op == "E13-float-literal" || op == "E14-large-int-literal"
 }
 
+// c03SamePackageName: the callee is swapped for the function of the same NAME and signature in a
+// package of the same NAME at another import path (the call site reads the same, only the import
+// changes). Ground truth by construction: auth.Allowed("guest") is false in one package and true
+// in the other, so CanDelete("guest") differs.
+func c03SamePackageName(r *vh.Report, scratch string) {
+	mod := filepath.Join(scratch, "c03-samepkgname")
+	write := func(rel, content string) string {
+		p := filepath.Join(mod, rel)
+		os.MkdirAll(filepath.Dir(p), 0o755)
+		os.WriteFile(p, []byte(content), 0o644)
+		return p
+	}
+	write("go.mod", "module testmod\n\ngo 1.21\n")
+	write("auth/auth.go", "package auth\n\nfunc Allowed(role string) bool { return role == \"admin\" }\n\ntype Gate struct{}\n\nfunc (Gate) Open(role string) bool { return role == \"admin\" }\n")
+	write("legacy/auth/auth.go", "package auth\n\nfunc Allowed(role string) bool { return role != \"\" }\n\ntype Gate struct{}\n\nfunc (Gate) Open(role string) bool { return role != \"\" }\n")
+	for _, shape := range []struct{ name, body string }{
+		{"function", "\tif auth.Allowed(role) {\n\t\treturn true\n\t}\n\treturn false"},
+		{"method-of-a-type-of-that-package", "\tvar g auth.Gate\n\tif g.Open(role) {\n\t\treturn true\n\t}\n\treturn false"},
+		{"function-value", "\tf := auth.Allowed\n\tif role != \"x\" {\n\t\treturn f(role)\n\t}\n\treturn false"},
+	} {
+		mainSrc := func(imp string) string {
+			return "package main\n\nimport \"" + imp + "\"\n\nfunc CanDelete(role string) bool {\n" + shape.body + "\n}\n\nfunc main() { _ = CanDelete(\"guest\") }\n"
+		}
+		fps := map[string][2]string{}
+		for _, imp := range []string{"testmod/auth", "testmod/legacy/auth"} {
+			dir := "cmd-" + shape.name + "-" + strings.ReplaceAll(imp, "/", "_")
+			src := mainSrc(imp)
+			path := write(dir+"/main.go", src)
+			var pair [2]string
+			for pi, pol := range []ir.LiteralPolicy{ir.KeepAllLiteralsPolicy, ir.DefaultLiteralPolicy} {
+				res, err := diff.FingerprintSource(path, src, pol)
+				if err != nil {
+					r.Fail("same package name (%s, %s): %v", shape.name, imp, err)
+					return
+				}
+				for _, x := range res {
+					if diff.ShortFuncName(x.FunctionName) == "CanDelete" {
+						pair[pi] = x.Fingerprint
+					}
+				}
+			}
+			fps[imp] = pair
+		}
+		r.Eval()
+		key := "collision/same-package-name/" + shape.name
+		r.Nontrivial(key)
+		a, b := fps["testmod/auth"], fps["testmod/legacy/auth"]
+		for pi, pol := range []string{"keepall", "default"} {
+			if a[pi] == "" || b[pi] == "" {
+				r.Fail("same package name (%s): CanDelete not fingerprinted", shape.name)
+				return
+			}
+			if a[pi] == b[pi] {
+				r.Violate(key+"/"+pol, fmt.Sprintf("CanDelete (%s) uses package auth; with the import testmod/auth CanDelete(\"guest\") is false, with testmod/legacy/auth it is true: the two functions have the SAME fingerprint (%s policy)", shape.name, pol), map[string]interface{}{"shape": shape.name})
+			}
+		}
+	}
+}
+
 func TestVerifC03(t *testing.T) {
 	r := vh.New("edits-fingerprint")
 	defer r.Write()
+	if sh, _ := vh.Shard(); sh == 0 {
+		scratch := vh.Env("SCRATCH")
+		if scratch == "" {
+			scratch = t.TempDir()
+		}
+		c03SamePackageName(r, scratch)
+	}
 	rounds, ok := pfEditRun(t, r, false)
 	if !ok {
 		return
